@@ -18,7 +18,7 @@ use lrpar::{LexParseError, Lexeme, NonStreamingLexer, ParseRepair, RTParserBuild
 use std::cell::RefCell;
 use std::fmt::Write;
 
-const MAGIC: u64 = 7_777_777;
+const MAGIC: u64 = 77;
 
 #[derive(Clone, Debug)]
 enum T2 {
